@@ -1425,10 +1425,13 @@ pub struct RenderOpts {
     pub unroll_repeat: bool,
     /// do not protect decorator-only spans (used by the check that reports that finding)
     pub raw_decorators: bool,
+    /// leave out debug/emit/trace decorators (the protective `push.0 drop` is kept so that the
+    /// operation stream is the same as with decorators)
+    pub strip_decorators: bool,
 }
 impl Default for RenderOpts {
     fn default() -> Self {
-        RenderOpts { indent: false, comments: false, unroll_repeat: false, raw_decorators: false }
+        RenderOpts { indent: false, comments: false, unroll_repeat: false, raw_decorators: false, strip_decorators: false }
     }
 }
 
@@ -1466,8 +1469,10 @@ fn render_nodes(prog: &Prog, nodes: &[Node], o: &RenderOpts, out: &mut String) {
         }
         match n {
             Node::I(i) => {
-                out.push_str(&i.txt);
-                out.push(' ');
+                if !(o.strip_decorators && is_decorator_txt(&i.txt)) {
+                    out.push_str(&i.txt);
+                    out.push(' ');
+                }
             }
             Node::If(t, f) => {
                 out.push_str("if.true ");
